@@ -1518,6 +1518,32 @@ fn arb_vop() -> impl Strategy<Value = VOp> {
     ]
 }
 
+/// A well-formed long header (version 1, any type, connection IDs of 0..20 bytes, short token) whose Length
+/// field and body are tiny or inconsistent, padded to a full-size datagram half of the time: reaches the
+/// header-protection and first-packet code before anything is authenticated
+fn arb_long_shell() -> impl Strategy<Value = Vec<u8>> {
+    (0u8..4, prop::collection::vec(any::<u8>(), 0..=20), prop::collection::vec(any::<u8>(), 0..=20), prop::collection::vec(any::<u8>(), 0..3), prop_oneof![3 => 0u16..48, 1 => 48u16..1300], prop::collection::vec(any::<u8>(), 0..48), any::<bool>(), any::<u8>()).prop_map(|(ty, dcid, scid, token, len_field, body, pad, low)| {
+        let mut d = vec![0xc0 | (ty << 4) | (low & 0x0f)];
+        d.extend_from_slice(&1u32.to_be_bytes());
+        d.push(dcid.len() as u8);
+        d.extend_from_slice(&dcid);
+        d.push(scid.len() as u8);
+        d.extend_from_slice(&scid);
+        if ty == 0 {
+            wire::put_var(&mut d, token.len() as u64);
+            d.extend_from_slice(&token);
+        }
+        if ty != 3 {
+            wire::put_var_len(&mut d, len_field as u64, 2);
+        }
+        d.extend_from_slice(&body);
+        if pad && d.len() < 1200 {
+            d.resize(1200, 0);
+        }
+        d
+    })
+}
+
 fn arb_step() -> impl Strategy<Value = Step> {
     let pn = prop_oneof![10 => Just(PnSel::Next), 1 => Just(PnSel::Dup), 1 => (1u16..2000).prop_map(PnSel::Skip), 1 => arb_v62().prop_map(PnSel::Abs)];
     let m = prop_oneof![
@@ -1530,7 +1556,7 @@ fn arb_step() -> impl Strategy<Value = Step> {
     prop_oneof![
         14 => (prop_oneof![1 => Just(0u8), 1 => Just(1u8), 8 => Just(2u8)], prop::collection::vec(arb_hf(), 1..6), pn, prop::bool::weighted(0.05), prop_oneof![Just(0u16), 0u16..1300]).prop_map(|(space, items, pn, other_addr, pad)| Step::Pkt { space, items, pn, other_addr, pad }),
         3 => arb_tpl().prop_map(Step::Template),
-        2 => (prop_oneof![prop::collection::vec(any::<u8>(), 1..60), prop::collection::vec(any::<u8>(), 1200..1300)], any::<bool>()).prop_map(|(bytes, other_addr)| Step::Garbage { bytes, other_addr }),
+        2 => (prop_oneof![2 => prop::collection::vec(any::<u8>(), 1..60), 2 => prop::collection::vec(any::<u8>(), 1200..1300), 3 => arb_long_shell()], any::<bool>()).prop_map(|(bytes, other_addr)| Step::Garbage { bytes, other_addr }),
         2 => (m, any::<bool>()).prop_map(|(m, long_header)| Step::Mutated { m, long_header }),
         5 => arb_vop().prop_map(Step::Victim),
         1 => (0u8..9, 1u16..400).prop_map(|(kind, n)| Step::Flood { kind, n }),
